@@ -19,7 +19,7 @@ theorem validateOne_core (O : Oracle G) (cfg : Cfg) (frame : List G) (idx : Nat)
   simp only [core, Prod.mk.injEq] at h
   obtain ⟨rfl, rfl, rfl⟩ := h
   unfold validateOne
-  by_cases h1 : (v.lsOnly && !(O.kind g).isLineString) = true
+  by_cases h1 : (v.lsOnly && !(O.kind g).gatePass) = true
   · simp [h1, core]
   · simp only [h1, Bool.false_eq_true, if_false]
     cases hok : O.valid v frame g idx
